@@ -460,6 +460,20 @@ def guarded_by(res, opts):
         add_ob(res, 'fire.read_append_wakeup_in_one_critical_section', min(i_read, i_app, i_red) >= 0, 'ast',
                detail='foreign thread: reading _currently_handling, appending the event and reduce_time_left(0) are in the same `with self._lock:`')
         add_ob(res, 'fire.append_before_wakeup', 0 <= i_app < i_red, 'ast', detail='the event is queued before the loop is woken')
+    # the loop thread takes events off the shared deque WITHOUT the lock, so it may only use single atomic transfers (popleft): a
+    # read-then-clear pair (extend/list/iteration + clear) would drop an event a foreign fire() appends in between
+    de, _ = mod.find('_EventQueue.dispatchEvents')
+    racy = []
+    for n in ast.walk(de):
+        if isinstance(n, ast.Call):
+            t = ast.unparse(n)
+            if t in ('self._queue.clear()',) or (isinstance(n.func, ast.Attribute) and n.func.attr in ('extend', 'update') and 'self._queue' in [ast.unparse(a) for a in n.args]) \
+                    or (isinstance(n.func, ast.Name) and n.func.id in ('list', 'tuple', 'sorted') and 'self._queue' in [ast.unparse(a) for a in n.args]):
+                racy.append(t[:60])
+        if isinstance(n, (ast.For, ast.comprehension)) and ast.unparse(n.iter) == 'self._queue':
+            racy.append('iteration over self._queue')
+    add_ob(res, 'dispatchEvents.takes_events_off_the_shared_deque_one_atomic_popleft_at_a_time', not racy and 'self._queue.popleft()' in ast.unparse(de), 'ast',
+           detail='non-atomic drains of the deque in dispatchEvents (no lock is held there): %r' % racy)
     hmod = contract.ModInfo('circuits/core/helpers.py')
     fb, _ = hmod.find('FallBackGenerator._on_generate_events')
     blocks = _with_lock_blocks(fb, 'event.lock')
